@@ -139,6 +139,78 @@ def check_check_regions(P, ctx):
     ctx.floor(rule, 60)
 
 
+ALLOC_CLASSES = ('AllocStatic', 'AllocStack', 'AllocHeap', 'AllocData')
+# what a test of the allocation class may refuse: objects whose storage was not obtained from malloc cannot be reallocated (String, Tuple);
+# dealloc additionally refuses an element embedded in a container (it is released with its container)
+ALLOC_MAY_REFUSE = {'dealloc': {'AllocStatic', 'AllocStack', 'AllocData'}}
+ALLOC_MAY_REFUSE_DEFAULT = {'AllocStatic', 'AllocStack'}
+
+
+def check_alloc_refusals(P, ctx):
+    """the allocation-class tests (compiled only with CELLO_ALLOC_CHECK) refuse only objects the operation cannot serve in any build:
+    evaluated per function for each of the four classes — a class that is refused in the checked build but served without the check
+    (heap objects, elements embedded in containers) makes the two builds disagree on an in-contract program"""
+    from . import cint
+    rule = 'C18.alloc-checks-refuse-only-misuse'
+    nfn = 0
+    for fn in P.all_functions():
+        if not fn['unit'].startswith('src/') or fn.get('body') is None:
+            continue
+        g = P.cfg(fn)
+
+        def is_alloc_cond(n):
+            return n['kind'] == 'cond' and any(x[0] in ('arrow', 'dot') and x[2] == 'alloc' and any(y[0] == 'call' and ir.callee_name(y) == 'header' for y in ir.walk(x)) for x in ir.walk(n['expr']))
+        conds = [n for n in g.live() if is_alloc_cond(n)]
+        if not conds:
+            continue
+        nfn += 1
+        ctx.fn(fn)
+        refused, unsup = set(), None
+        for cls in ALLOC_CLASSES:
+            atoms = {}
+
+            def call(nm, e, it):
+                if nm == 'header':
+                    return ('ep', 'hdr', 0)
+                raise cint.NoEval('call %s' % nm)
+            it = cint.CInt(P, fn, atoms=atoms, call=call)
+            try:
+                it.atoms[('elem', 'hdr', 0, 'alloc')] = it.ev(('enum', cls))
+            except cint.NoEval as x:
+                unsup = str(x)
+                break
+            # from every allocation-class test: follow the branch this class takes; tests of anything else are not followed (the refusal
+            # must depend on the class alone to count as a refusal of the class)
+            for c in conds:
+                cur, seen = c, set()
+                while cur is not None and cur['id'] not in seen:
+                    seen.add(cur['id'])
+                    if cur['kind'] == 'term':
+                        if isinstance(cur.get('why'), tuple) and cur['why'][0] == 'throw':
+                            refused.add(cls)
+                        break
+                    if cur['kind'] == 'cond':
+                        if not is_alloc_cond(cur):
+                            break
+                        try:
+                            v = it.ev(cur['expr'])
+                        except cint.NoEval as x:
+                            unsup = unsup or '%s: %s' % (ir.fmt(cur['expr']), x)
+                            break
+                        nxt = [s for s, l in cur['succ'] if l is bool(v)]
+                    else:
+                        nxt = [s for s, l in cur['succ']]
+                    cur = g.nodes[nxt[0]] if len(nxt) == 1 else None
+        may = ALLOC_MAY_REFUSE.get(fn['name'], ALLOC_MAY_REFUSE_DEFAULT)
+        if unsup:
+            ctx.undecided(rule, fn['name'], site(fn), 'an allocation-class test leaves the evaluated fragment: ' + unsup)
+        else:
+            extra = sorted(refused - may)
+            ctx.check(not extra, rule, fn['name'], site(fn), 'the allocation-class tests refuse %s; anything else (a heap object, an element inside a container) is served with and without the check' % (
+                ' / '.join(sorted(may))), ['also refused: %s' % ', '.join(extra)] if extra else None)
+    ctx.floor(rule, 15)
+
+
 def check_cache_regions(P, ctx):
     rule = 'C18.cache-transparent'
     repo = front.REPO
@@ -262,6 +334,7 @@ def run(ctx, load):
     ctx.stats['units'] = set(P.units) | {'include/Cello.h'}
     ctx.stats['configs'] = ['default']
     check_check_regions(P, ctx)
+    check_alloc_refusals(P, ctx)
     check_cache_regions(P, ctx)
     check_ngc_regions(P, ctx)
     quick = ['default', 'ndebug']
@@ -312,6 +385,13 @@ def run(ctx, load):
         if k[0].startswith('C01.'):
             ctx.floors.pop(k)
     ctx.floor('C18.collector-keeps-what-containers-hold', 10)
+    # ... and never reclaims what is reachable only through a raw (unregistered) part of an object (shared with C01)
+    from .rules_c01 import check_raw_parts
+    check_raw_parts(P, ctx, rule='C18.collector-keeps-what-raw-parts-hold')
+    # ... and finalises an object once: without the collector del finalises directly; with it, a deletion that races the sweep's pending
+    # list must not finalise a second time (shared with C06.sweep-once)
+    from .rules_c06 import check_sweep
+    ctx.borrow('C18.sweep-finalises-once', 5, lambda: check_sweep(Pg, ctx))
 
 
 EXPLANATION = (
